@@ -62,7 +62,7 @@ func historyUnits(alpha string, depth int, perHist float64) []unit {
 	n := len(alphabets[alpha])
 	group := fmt.Sprintf("histories/%s/depth<=%d", alpha, depth)
 	split := 0
-	for split < depth-1 && pow(n, depth-split) > 6000 {
+	for split < depth-1 && pow(n, depth-split) > 1500 {
 		split++
 	}
 	var us []unit
@@ -141,6 +141,7 @@ func buildUnits(r *vk.Run) []unit {
 	var us []unit
 	small := []kind{kVotePeer, kVoteOwn, kPropPeer, kPartSmall, kTimeout, kStep, kEndHeight}
 	few := []kind{kVotePeer, kTimeout, kEndHeight}
+	five := []kind{kVotePeer, kPartSmall, kTimeout, kStep, kEndHeight}
 	if *partFlag == "all" || *partFlag == "histories" {
 		if r.Quick() {
 			us = append(us, historyUnits("full", 4, 1.2e-3)...)
@@ -159,7 +160,7 @@ func buildUnits(r *vk.Run) []unit {
 			us = append(us, imageUnits("damage/3-kinds/3-records", few, 3)...)
 		} else {
 			us = append(us, imageUnits("damage/all-kinds/3-records", small, 3)...)
-			us = append(us, imageUnits("damage/3-kinds/4-records", few, 4)...)
+			us = append(us, imageUnits("damage/5-kinds/4-records", five, 4)...)
 		}
 		// images with buffer overflow: unsynced 32 KiB parts fill the 40 KiB head buffer, bufio flushes a record
 		// in two pieces, and a tick falls in between
@@ -290,10 +291,12 @@ func runBatch(ctx context.Context, self string, batch []unit, a *agg, byID map[i
 		a.harnErr = se
 	case strings.Contains(se, "out of memory") || strings.Contains(se, "cannot allocate memory"):
 		u := byID[current]
-		mergeViol(a.viols, &violRec{Key: "process-death:out-of-memory-while-reading-log", What: "the worker process died with a Go runtime out-of-memory error (address-space limit 12 GiB) while reading back a log: " + firstLines(se, 3),
+		a.deaths = append(a.deaths, "out of memory")
+		mergeViol(a.viols, &violRec{Key: "process-death:out-of-memory-while-reading-log", What: "the worker process died with a Go runtime out-of-memory error (address-space limit 3.5 GiB) while reading back a log: " + firstLines(se, 3),
 			Replay: map[string]interface{}{"unit": u}, Size: 1 << 60, Count: 1})
 	case strings.Contains(se, "fatal error:") || strings.Contains(se, "panic:"):
 		u := byID[current]
+		a.deaths = append(a.deaths, firstLines(se, 1))
 		mergeViol(a.viols, &violRec{Key: "process-death:" + firstLines(se, 1), What: "the worker process died: " + firstLines(se, 6),
 			Replay: map[string]interface{}{"unit": u}, Size: 1 << 60, Count: 1})
 	default:
@@ -399,8 +402,9 @@ func main() {
 	for _, b := range batches {
 		a.mu.Lock()
 		he := a.harnErr
+		nd := len(a.deaths)
 		a.mu.Unlock()
-		if r.Expired() || he != "" {
+		if r.Expired() || he != "" || nd > 0 {
 			skipped++
 			continue
 		}
@@ -463,7 +467,11 @@ func main() {
 			}
 		}
 		sort.Strings(complete)
-		r.Capped(fmt.Sprintf("deadline: incomplete %v; fully covered %v", incomplete, complete))
+		why := "deadline"
+		if len(a.deaths) > 0 {
+			why = "stopped after a worker process died (reported as a violation)"
+		}
+		r.Capped(fmt.Sprintf("%s: incomplete %v; fully covered %v", why, incomplete, complete))
 	}
 	keys := []string{}
 	for k := range a.viols {
